@@ -273,7 +273,7 @@ func vfBuild(t, n int) (byte, []byte, vfLogical) {
 				if i == 0 {
 					b = vfZLInt(int64(int16(vfUint16("i16"))), 2)
 				} else {
-					b = vfZLInt(int64(int8(vfByte("i16"))), 2)
+					b = vfZLInt(int64(int8(vfByte("i16b"))), 2)
 				}
 			default:
 				b = vfZLStr(vfBytes("zs", 1), 1)
